@@ -10,8 +10,10 @@ package main
 
 import (
 	"context"
+	"encoding/json"
 	"fmt"
 	"os"
+	"os/exec"
 	"path/filepath"
 	"sort"
 	"strings"
@@ -86,7 +88,8 @@ type inst struct {
 
 var shapes = []string{"file", "file", "dir", "dir-nonexec", "dir-extra-before", "dir-extra-after", "dir-nonexec-extra-after", "dir-nonexec-extra-before", "dir-subdir", "dir-subdir-before",
 	"dir-subdir-samename", "dir-symlink-extra", "dir-two", "dir-two-nonexec", "dir-no-candidate", "badmeta", "misnamed", "file-nonexec", "dir-badmeta", "file-via-symlink", "file-via-symlink", "misnamed-case",
-	"dir-samename-subdir", "dir-samename-subdir-holds-candidate", "dir-candidate-symlink", "dir-extra-group-exec", "dir-single-group-exec-only"}
+	"dir-samename-subdir", "dir-samename-subdir-holds-candidate", "dir-candidate-symlink", "dir-extra-group-exec", "dir-single-group-exec-only",
+	"dir-extra-notation-named-before", "badmeta-trailing-output", "dir-badmeta-second-document"}
 
 func main() {
 	r := lib.Start("C20", "exploration")
@@ -112,10 +115,79 @@ func main() {
 		}
 		r.Inconclusive(fmt.Sprintf("sequence %d hit ETXTBSY in every attempt", seq))
 	}, r.PanicViolation("CLIManager"))
+	relativeSources(ctx, r)
 	r.RequireAtLeast("installs-succeeded", int64(n/2))
 	r.RequireAtLeast("installs-refused", int64(n/2))
 	r.RequireAtLeast("metadata-probes", int64(n))
 	r.Finish()
+}
+
+// relativeSources: the single-executable source named RELATIVE to the working directory ("./notation-foo", the way a
+// user types it after unpacking a release), run in a helper process whose working directory is the unpacked release
+// and whose PATH holds another, system-wide notation-foo of a much higher version. The plugin asked for its metadata is
+// the file named by the caller: a lower version is refused and the installed 1.0.0 stays; a higher one replaces it.
+func relativeSources(ctx context.Context, r *lib.Run) {
+	worker := filepath.Join(os.Getenv("VERIF_BIN"), "worker")
+	for fi, form := range []string{"./notation-foo", "./x/../notation-foo", ".//notation-foo"} {
+		for _, newer := range []bool{false, true} {
+			base := lib.TempDir("c20rel")
+			root := filepath.Join(base, "plugins")
+			os.MkdirAll(root, 0o755)
+			mgr := plugin.NewCLIManager(dir.NewSysFS(root))
+			first := filepath.Join(base, "first")
+			os.MkdirAll(first, 0o755)
+			os.WriteFile(filepath.Join(first, "notation-foo"), script("foo", "1.0.0", false), 0o755)
+			if _, _, err := mgr.Install(ctx, plugin.CLIInstallOptions{PluginPath: filepath.Join(first, "notation-foo")}); err != nil {
+				r.Inconclusive("relative sources: the first installation failed: " + err.Error())
+				os.RemoveAll(base)
+				continue
+			}
+			rel := filepath.Join(base, "release")
+			os.MkdirAll(filepath.Join(rel, "x"), 0o755)
+			ver := map[bool]string{false: "0.5.0", true: "1.1.0"}[newer]
+			os.WriteFile(filepath.Join(rel, "notation-foo"), script("foo", ver, false), 0o755)
+			systemWide := filepath.Join(base, "usr-local-bin")
+			os.MkdirAll(systemWide, 0o755)
+			os.WriteFile(filepath.Join(systemWide, "notation-foo"), script("foo", "9.9.9", false), 0o755)
+			spec, _ := json.Marshal(map[string]any{"root": root, "op": "install", "path": form})
+			specPath := filepath.Join(base, "spec.json")
+			os.WriteFile(specPath, spec, 0o644)
+			cmd := exec.Command(worker, "jail", specPath)
+			cmd.Dir = rel
+			cmd.Env = append(os.Environ(), "PATH="+systemWide+":"+os.Getenv("PATH"))
+			out, err := cmd.Output()
+			var res struct {
+				OK    bool   `json:"ok"`
+				Err   string `json:"err"`
+				Panic string `json:"panic"`
+			}
+			if err != nil || json.Unmarshal(out, &res) != nil {
+				r.Inconclusive(fmt.Sprintf("relative sources: helper process failed: %v %s", err, out))
+				os.RemoveAll(base)
+				continue
+			}
+			r.Eval(fmt.Sprintf("relative-source|%d|%v", fi, newer))
+			r.Event("installs-from-a-relative-source-path")
+			sig := map[string]string{"kind": "install-decision", "shape": "file-relative-path", "newer": fmt.Sprint(newer)}
+			wit := map[string]any{"path": form, "working_directory": rel, "source_version": ver, "installed": "1.0.0", "another_notation-foo_on_PATH": "9.9.9", "result": res}
+			if res.Panic != "" {
+				r.Violation(map[string]string{"kind": "panic", "shape": "file-relative-path"}, "Install panicked: "+res.Panic, wit)
+			}
+			if res.OK != newer {
+				r.Violation(sig, fmt.Sprintf("Install(%q) of version %s over the installed 1.0.0 without overwrite: success=%v (err=%q)", form, ver, res.OK, res.Err), wit)
+			}
+			wantVer := map[bool]string{false: "1.0.0", true: "1.1.0"}[newer]
+			got, _ := os.ReadFile(filepath.Join(root, "foo", "notation-foo"))
+			if string(got) != string(script("foo", wantVer, false)) {
+				r.Violation(map[string]string{"kind": "installed-files", "shape": "file-relative-path", "newer": fmt.Sprint(newer)}, fmt.Sprintf("after Install(%q) of version %s the installed executable is not the %s one", form, ver, wantVer), wit)
+			} else if p, err := mgr.Get(ctx, "foo"); err == nil {
+				if md, err := p.GetMetadata(ctx, &pf.GetMetadataRequest{}); err != nil || md.Version != wantVer {
+					r.Violation(map[string]string{"kind": "installed-plugin-metadata", "shape": "file-relative-path"}, fmt.Sprintf("the installed plugin answers %+v (err=%v), expected version %s", md, err, wantVer), wit)
+				}
+			}
+			os.RemoveAll(base)
+		}
+	}
 }
 
 // runSequence executes one sequence; observations are queued in pending. It reports whether ETXTBSY was seen.
@@ -197,6 +269,12 @@ func runSequence(ctx context.Context, r *lib.Run, seq int, pending *[]func()) (b
 				os.MkdirAll(src, 0o755)
 				exe := filepath.Join(src, "notation-"+name)
 				content := script(name, v.s, shape == "badmeta" || shape == "dir-badmeta")
+				switch shape {
+				case "badmeta-trailing-output": // a complete metadata object followed by a log line: the output is no JSON document
+					content = append(content, []byte("echo 'plugin: done'\n")...)
+				case "dir-badmeta-second-document": // ... or followed by a second object
+					content = append(content, []byte("echo '{\"name\":\"other\"}'\n")...)
+				}
 				if shape == "misnamed" {
 					content = script("other", v.s, false)
 				}
@@ -223,8 +301,13 @@ func runSequence(ctx context.Context, r *lib.Run, seq int, pending *[]func()) (b
 					expect[fn] = finfo{c, m & 0o755}
 				}
 				switch shape {
-				case "file", "badmeta", "misnamed":
+				case "file", "badmeta", "misnamed", "badmeta-trailing-output":
 					path = exe
+				case "dir-extra-notation-named-before":
+					// library files that carry the notation- prefix and sort BEFORE the executable; nobody may execute them, so
+					// the directory still holds exactly one plugin executable
+					addExtra("notation-0common.so", "shared code", 0o644)
+					addExtra("notation-"+name[:1]+".cfg", "settings", 0o600)
 				case "misnamed-case":
 					// the file is notation-Foo, the process says it is "foo": another name (names are compared exactly)
 					cased := filepath.Join(src, "notation-"+strings.ToUpper(name[:1])+name[1:])
@@ -297,7 +380,7 @@ func runSequence(ctx context.Context, r *lib.Run, seq int, pending *[]func()) (b
 					os.WriteFile(filepath.Join(src, "plugin.sh"), content, 0o755)
 					usable = false
 				}
-				metaOK := shape != "badmeta" && shape != "dir-badmeta" && shape != "misnamed" && shape != "misnamed-case"
+				metaOK := shape != "badmeta" && shape != "dir-badmeta" && shape != "misnamed" && shape != "misnamed-case" && shape != "badmeta-trailing-output" && shape != "dir-badmeta-second-document"
 				ex := model[name]
 				want, judged := usable && metaOK, true
 				why := "fresh install"
